@@ -1,6 +1,6 @@
 (* C02 — constraints hold for every parameter set the objective is evaluated on.  Statements only. *)
 Require Import Base StopRun Converter ConverterFacts CoreOpt Tracker Algos Driver DriverFacts CoreFacts AlgoFacts AlgoLift.
-Require Import Pop PopFacts.
+Require Import Pop PopFacts Smbo.
 
 (* the rejection loops' only Ok exit is a feasible candidate — for every tape of draws *)
 Theorem C02_move_random_feasible : forall sp cons fuel t c p t' c',
@@ -111,3 +111,11 @@ Theorem C02_direct_iterate : forall sp cons fuel, dims_ok sp -> forall cand t p 
   cand_iterate sp cons fuel cand t = Ok (p, t', c) -> emit_ok sp cons p /\ is_suffix t' t /\ 0 < c.
 Proof. exact cand_iterate_ok. Qed.
 Print Assumptions C02_direct_iterate.
+
+(* model-based optimizers (Bayesian, forest, TPE, Lipschitz): a proposal accepted by the proposal rule is a member of the candidate set;
+   when every candidate lies in the box and satisfies the constraints (checked on every observed candidate set by C17's S-unit), so
+   does the proposal *)
+Theorem C02_smbo_proposal : forall sp cons (comb : list pos) acq i p, dims_ok sp ->
+  forallb (emit_b sp cons) comb = true -> proposal_ok comb acq i p = true -> emit_ok sp cons p.
+Proof. exact smbo_proposal_emit. Qed.
+Print Assumptions C02_smbo_proposal.
